@@ -42,7 +42,8 @@ def impl(case):
         # doubled; one die doubled): whatever they leave behind must not colour p's answer (C13 explores this at large)
         from dyce import H, P
 
-        for twin in (P(*[H({o: 2 * k for o, k in h.items()}) for h in p]), P(*([H({o: 2 * k for o, k in p[0].items()})] + list(p)[1:])) if len(p) else P()):
+        retyped = P(*[H({(float(o) if isinstance(o, int) and not isinstance(o, bool) else o): k for o, k in h.items()}) for h in p])
+        for twin in (retyped, P(*[H({o: 2 * k for o, k in h.items()}) for h in p]), P(*([H({o: 2 * k for o, k in p[0].items()})] + list(p)[1:])) if len(p) else P()):
             try:
                 list(twin.rolls_with_counts(*which))
             except IndexError:
@@ -56,6 +57,8 @@ def impl(case):
                 return "negative-count"
             if cnt:
                 c[tuple(enc(o) for o in roll)] += cnt
+                if case.get("prime") and any(type(o) not in {type(x) for h in p for x in h} for o in roll):
+                    return "roll-outcome-of-a-type-no-die-has"
     except IndexError:
         return "err IndexError"
     return PC.fmt_rolls(c)
